@@ -67,6 +67,10 @@ def cases(tier):
         yield l, dict(coverage=0.6, multiword_words=['pass', 'word', 'love', 'you', 'blue', 'fish', 'abcd', 'test'])
         yield l, dict(coverage=0.5, save_sensitive=True)
         yield l, dict(coverage=0.95)
+    # rulesets in encodings that put a byte-order mark in front of a file (ONE per file)
+    for l in c03.SCENARIOS[:3] + EXTRA[:3] + EXTRA[-1:]:
+        for enc in ('utf-16', 'utf-8-sig', 'utf-32'):
+            yield l, dict(coverage=0.6, encoding=enc)
     # coverages next to the two special values (exactly 0: Markov only, exactly 1: no Markov structure) are ordinary coverages
     for l in c03.SCENARIOS[:4] + EXTRA[:4]:
         for c in (1e-10, 1e-6, 0.9999999999, 0.999999):
@@ -260,7 +264,7 @@ def run_t(shard, tier, acc):
         if ok is not True:
             acc.count('training_did_not_complete')
             continue
-        msgs, distinct = check_ruleset(base, lines, opts)
+        msgs, distinct = check_ruleset(base, lines, opts, enc=opts.get('encoding', 'utf-8'))
         if distinct >= 2:
             acc.nontrivial += 1
         for m in msgs[:3]:
